@@ -72,6 +72,9 @@ type Scenario struct {
 	Epoch0      int64 // wall-clock epoch of simulated time zero, ns since 1970
 	DevLogger   bool  // zap development mode (DPanic panics)
 	ShiftNs     int64 // pair runs: epoch offset of the second run
+	TxArrival   int   // C16 workload pattern
+	Sub         int   // sub-scenario selector (C09)
+	SlowNode    int   // 1+identity whose application is slow to call Reset (up to 1.5 T)
 	PoorNode    int   // 1+identity whose mempool misses most gossiped transactions (0: none)
 	SupplySlow  int64 // extra tx supply latency in multiples of the base latency
 	PoolHoldsInvalid bool // GetVerified may return transactions the block verification rejects
@@ -431,5 +434,139 @@ func WatchScenario(t *Tape) *Scenario {
 	if t.Chance(SScen, 1, 3) {
 		sc.MaxTPB = sc.TPB * time.Duration(pick(t, SScen, 2, 3, 8, 1))
 	}
+	return sc
+}
+
+// SyncScenario: all honest, everybody boots at t=0 (in tape order), latency
+// bounded by delta << T from the start, no loss, exact timers; the tape
+// permutes deliveries inside the bound, duplicates messages and stalls Resets
+// (by < T/4) so that next-height traffic arrives early.  No ledger sync: every
+// height must be decided by consensus.
+func SyncScenario(t *Tape) *Scenario {
+	sc := baseScenario(t, "sync", 1, 10)
+	sc.Heights = int(t.Range(SScen, 3, 8))
+	sc.GST = 0
+	sc.Delta = int64(sc.TPB) / pick(t, SScen, int64(1000), 200, 50, 20)
+	sc.LatBase, sc.LatJitter = sc.Delta, 0
+	sc.DupPM = pick(t, SScen, uint64(0), 50, 200)
+	sc.ResetDelay = pick(t, SScen, int64(0), sc.Delta, int64(sc.TPB)/8, int64(sc.TPB)/4)
+	sc.MapOrder = int(t.Draw(SScen, 3))
+	sc.SyncEvery = 0
+	sc.TxGossipMax = sc.Delta
+	sc.TxMissing = false
+	if t.Chance(SScen, 2, 3) {
+		sc.SlowNode = 1 + int(t.Draw(SScen, uint64(sc.NIdent)))
+	}
+	if t.Chance(SScen, 1, 3) {
+		sc.MaxTPB = sc.TPB * time.Duration(pick(t, SScen, 2, 3, 8, 1))
+		if t.Chance(SScen, 1, 2) {
+			sc.MaxTPB = sc.TPB * 3 / 2
+		}
+	}
+	if t.Chance(SScen, 1, 3) {
+		sc.NObs = int(t.Range(SScen, 1, 2))
+	}
+	sc.MaxEvents = 60000
+	return sc
+}
+
+// DynScenario: SyncScenario with the maximum-block-time extension decided by
+// the tape (on in most runs) and transaction arrival processes: never, before
+// the minimum, inside the extended wait, bursts.
+func DynScenario(t *Tape) *Scenario {
+	sc := SyncScenario(t)
+	sc.NIdent = 0
+	n := drawN(t, 1, 7)
+	sc.NIdent = n
+	vals := make([]int, n)
+	for i := range vals {
+		vals[i] = i
+	}
+	sc.Epochs = []Epoch{{From: 0, Vals: vals}}
+	sc.Fault = make([]FaultKind, n)
+	sc.FlagWO = make([]bool, n)
+	sc.NObs = 0
+	if t.Chance(SScen, 5, 6) {
+		switch t.Draw(SScen, 5) {
+		case 0:
+			sc.MaxTPB = sc.TPB * 2
+		case 1:
+			sc.MaxTPB = sc.TPB * 3 / 2
+		case 2:
+			sc.MaxTPB = sc.TPB * 3
+		case 3:
+			sc.MaxTPB = sc.TPB * 8
+		case 4:
+			sc.MaxTPB = sc.TPB
+		}
+	} else {
+		sc.MaxTPB = 0
+	}
+	sc.TxRate = 0
+	sc.TxArrival = 1 + int(t.Draw(SScen, 4)) // 1 never, 2 before the minimum, 3 inside the extended wait, 4 bursts/mixed
+	sc.MaxTxPerBlock = 1 + int(t.Draw(SScen, 4))
+	sc.Heights = int(t.Range(SScen, 3, 6))
+	sc.ResetDelay = pick(t, SScen, int64(0), sc.Delta)
+	return sc
+}
+
+// GSTScenario: arbitrary crash/partition/silence faults until GST, then
+// latency <= delta, exact timers, no new faults, ledger sync active.
+func GSTScenario(t *Tape) *Scenario {
+	sc := baseScenario(t, "gst", 4, 10)
+	sc.Heights = 3
+	sc.Sub = int(t.Draw(SScen, 4)) // 0 silent from the start + synchrony from t=0, 1 cuts, 2 restarts, 3 mixed
+	sc.Delta = int64(sc.TPB) / pick(t, SScen, int64(200), 50, 20)
+	switch sc.Sub {
+	case 0:
+		chooseFaulty(t, sc, []FaultKind{FSilent}, -1)
+		sc.GST = 0
+		sc.LatBase, sc.LatJitter = sc.Delta, 0
+	case 1:
+		sc.Partitions = true
+		sc.GST = int64(sc.TPB) * t.Range(SScen, 1, 40)
+	case 2:
+		chooseFaulty(t, sc, []FaultKind{FAmnesia}, -1)
+		sc.CrashPM = pick(t, SScen, uint64(5), 20, 60)
+		sc.GST = int64(sc.TPB) * t.Range(SScen, 1, 40)
+	case 3:
+		chooseFaulty(t, sc, []FaultKind{FSilent, FAmnesia}, -1)
+		sc.Partitions = true
+		sc.CrashPM = pick(t, SScen, uint64(0), 5, 20)
+		sc.DropPM = pick(t, SScen, uint64(0), 50, 200)
+		sc.DupPM = pick(t, SScen, uint64(0), 50)
+		sc.StallPM = pick(t, SScen, uint64(0), 5)
+		sc.GST = int64(sc.TPB) * t.Range(SScen, 1, 60)
+	}
+	sc.MapOrder = int(t.Draw(SScen, 3))
+	sc.ResetDelay = pick(t, SScen, int64(0), sc.Delta, int64(sc.TPB)/8)
+	sc.TxMissing = false
+	sc.TxGossipMax = sc.Delta
+	sc.MaxEvents = 200000
+	sc.MaxTime = sc.GST + 400*int64(sc.TPB) + int64(sc.TPB)
+	return sc
+}
+
+// ClockScenario: sync-like runs (so that many proposals are made) with clock
+// skew, backward/forward clock steps, odd timestamp increments, and previous
+// timestamps ahead of the clock.
+func ClockScenario(t *Tape) *Scenario {
+	sc := baseScenario(t, "gst", 1, 7)
+	sc.Heights = int(t.Range(SScen, 3, 8))
+	sc.GST = 0
+	sc.Delta = int64(sc.TPB) / 50
+	sc.LatBase, sc.LatJitter = sc.Delta, 0
+	sc.TSInc = pick(t, SScen, uint64(1_000_000), 1, 7, 1000, 1_000_000_000, 7_000_000, 999_999_937)
+	sc.ClockSkew = true
+	sc.ClockJumps = t.Chance(SScen, 3, 4)
+	sc.TxGossipMax = sc.Delta
+	sc.TxMissing = t.Chance(SScen, 1, 3)
+	if t.Chance(SScen, 1, 3) {
+		chooseFaulty(t, sc, []FaultKind{FSilent}, 1) // view changes, so that proposals at views > 0 are judged too
+	}
+	if t.Chance(SScen, 1, 4) {
+		sc.MaxTPB = sc.TPB * 2
+	}
+	sc.Epoch0 += int64(t.Draw(SScen, 1_000_000_007)) // not aligned to any increment
 	return sc
 }
